@@ -871,6 +871,36 @@ impl Property for C12 {
             ctx.case("bytes-len<=2", &c, nt);
         }
         ctx.subspace("byte arrays len<=2 (rotating position/options)", arrays.len() as u64, true);
+        // byte arrays whose base64 text looks like another scalar (`null`, `true`, `1234` ...): the
+        // `!!binary` payload is written plain, so the reader must go by the tag, also in Option
+        // and untyped positions
+        {
+            fn unb64(w: &str) -> Vec<u8> {
+                const A: &[u8] = b"ABCDEFGHIJKLMNOPQRSTUVWXYZabcdefghijklmnopqrstuvwxyz0123456789+/";
+                let mut out = vec![];
+                let v: Vec<u32> = w.bytes().map(|c| A.iter().position(|x| *x == c).unwrap() as u32).collect();
+                for q in v.chunks(4) {
+                    let n = (q[0] << 18) | (q[1] << 12) | (q[2] << 6) | q[3];
+                    out.extend_from_slice(&[(n >> 16) as u8, (n >> 8) as u8, n as u8]);
+                }
+                out
+            }
+            let words = ["null", "Null", "NULL", "true", "True", "TRUE", "1234", "0000", "1e10", "+123", "0x1F", "0o17", "nullnull", "trueTRUE", "NaNN", "yesy", "Noon", "offf"];
+            let mut i = 0u64;
+            for w in words {
+                for pos in &bpos {
+                    for o in fam.iter() {
+                        i += 1;
+                        if !ctx.mine(i) {
+                            continue;
+                        }
+                        let c = Case { val: Val::Bytes(unb64(w)), pos: *pos, opts: o.clone() };
+                        ctx.case("bytes-lookalike-base64", &c, true);
+                    }
+                }
+            }
+            ctx.subspace("18 byte arrays whose base64 spells null / booleans / numbers x positions x option family", i, true);
+        }
         let bpos_s = prop::sample::select(bpos.clone());
         let strat = (prop::collection::vec(any::<u8>(), 0..200), bpos_s, opt_s.clone())
             .prop_map(|(b, pos, opts)| Case { val: Val::Bytes(b), pos, opts });
